@@ -104,6 +104,8 @@ class ContractMixin(CallMixin):
             return VNone()
         if name == "types" or name == "pure" or name == "assume_contract":
             return VNone()
+        if name == "all_yields":
+            return self.all_yields(st, node)
         if name == "cut_after":
             st.ghost["__cuts__"] = tuple(st.ghost.get("__cuts__", ())) + tuple(ast.literal_eval(a) for a in node.args)
             return VNone()
@@ -157,6 +159,45 @@ class ContractMixin(CallMixin):
             ok, tn = pyconst(args[0])
             return self.fresh_of(st, self.schema.parse(tn), "ghost")
         raise Unsupported(f"spec builtin {name}")
+
+    def all_yields(self, st, node):
+        """all_yields(lambda y: P): P holds for every value the generator yields. When verifying the
+        generator itself it ranges over the recorded yields; at a call site over the result list."""
+        lam = node.args[0]
+        pname = lam.args.args[0].arg
+
+        def holds(v):
+            f = Frame(None, {pname: v}, st.frame, True)
+            st.frames.append(f)
+            try:
+                return self.cond(st, lam.body)
+            finally:
+                st.frames.pop()
+
+        def over_list(lst):
+            s0 = self.source(st, lst)
+            if s0.concrete:
+                return t_and(*[holds(x) for x in s0.items])
+            self.push_binders(st, s0.binders)
+            ns_saved = st.ghost.get("__nosplit__", ())
+            self.mark_nosplit(st, s0.binders)
+            n = len(st.pc)
+            st.pc.append(s0.guard)
+            try:
+                body = holds(s0.elem)
+            finally:
+                del st.pc[n:]
+                self.pop_binders(st, len(s0.binders))
+                st.ghost["__nosplit__"] = ns_saved
+            return self.forall(s0.binders, z3.Implies(s0.guard, body))
+        res = st.frame.lookup("result")
+        if res is not None and not isinstance(res, VNone) and getattr(st.frames[0], "mode", None) != "post" and not any(
+                getattr(f, "mode", None) == "post" for f in st.frames):
+            return VBool(over_list(res))
+        conj = []
+        for kind, v in st.ghost.get("__yields__", ()):
+            conj.append(holds(v) if kind == "one" else over_list(v))
+        return VBool(t_and(*conj))
 
     def mk_obl(self, st, name, goal, kind, where=""):
         from .symex import Obligation
@@ -380,6 +421,13 @@ class ContractMixin(CallMixin):
                             self.do_raise(st, VExc(exc, ()))
                             raise PathDone()
                 for d in deferred:
+                    if d.kind == "may_raise":
+                        exc = d.node.args[0].id
+                        flag = self.fresh(st, "raises_" + exc, z3.BoolSort())
+                        if self.decide(st, flag):
+                            self.do_raise(st, VExc(exc, ()))
+                            raise PathDone()
+                for d in deferred:
                     if d.kind != "ensures":
                         continue
                     for a in d.node.args:
@@ -476,7 +524,7 @@ class ContractMixin(CallMixin):
         raise Unsupported("non-scalar argument")
 
     def mentions_result(self, node):
-        return any(isinstance(n, ast.Name) and n.id == "result" for n in ast.walk(node))
+        return any(isinstance(n, ast.Name) and n.id in ("result", "all_yields") for n in ast.walk(node))
 
     def with_env(self, st, env, fn):
         f = Frame(None, dict(env), None, True)
